@@ -66,6 +66,35 @@ theorem match_fixed_no_panic (up : Dpop.UrlParse) (t : Dpop.Token) (tp : Bool) (
     | (exact absurd ‹_› (strip_fixed_no_panic _ _ _))
     | simp_all
 
+theorem claimString_sites (chk : Bool) (site : String) (v : Option J) (s : String) (h : Dpop.claimString chk site v = .panic s) : s = site := by
+  unfold Dpop.claimString at h
+  repeat' split at h
+  all_goals first | (cases h; rfl) | (cases h; done) | simp at h
+
+theorem strip_sites (c : Dpop.Cfg) (up : Dpop.UrlParse) (raw s : String) (h : Dpop.strip c up raw = .panic s) :
+    s = "strip:url.Scheme(nil *url.URL)" := by
+  unfold Dpop.strip at h
+  repeat' split at h
+  all_goals first | (cases h; rfl) | (cases h; done) | simp at h
+
+theorem match_sites (c : Dpop.Cfg) (up : Dpop.UrlParse) (t : Dpop.Token) (tp : Bool) (m u s : String)
+    (h : Dpop.matchDpop c up t tp m u = .panic s) : s ∈ Dpop.sites.map (·.2) := by
+  unfold Dpop.matchDpop at h
+  repeat' split at h
+  all_goals first | (cases h; done) | skip
+  all_goals first
+    | (cases h; rename_i h'; have := claimString_sites _ _ _ _ h'; subst this; simp [Dpop.sites]; done)
+    | (cases h; rename_i h'; have := strip_sites _ _ _ _ h'; subst this; simp [Dpop.sites]; done)
+    | skip
+
+theorem dpop_validate_sites (c : Dpop.Cfg) (up : Dpop.UrlParse) (i : Dpop.ParseIn) (tp : Bool) (m u s : String)
+    (h : Dpop.validate c up i tp m u = .panic s) : s ∈ Dpop.sites.map (·.2) := by
+  unfold Dpop.validate at h
+  split at h
+  · simp at h
+  · rename_i p hp; exact absurd hp (parse_no_panic c i p)
+  · exact match_sites c up _ tp m u s h
+
 end DpopLemmas
 
 section ResolverLemmas
@@ -113,7 +142,7 @@ theorem firstKey_no_panic (c : Cfg) (hc : c.nilVMChecked = true) (l : List Rel) 
     have ih' := ih (fun x hx => hk x (by simp [hx]))
     unfold firstKey
     split
-    · simp [hc]; exact ih'
+    · simp; exact ih'
     · exact publicKey_no_panic _ _ hr s
 
 theorem resolveEx_spec (env : Env) (maxDepth : Int) :
